@@ -190,7 +190,7 @@ func (x *c13World) close() {
 
 func TestVerif_C13_Listings(t *testing.T) {
 	acct := vacct.Get("C13")
-	vacct.RapidCheck(t, vacct.N(14, 700), func(rt *rapid.T) {
+	vacct.RapidCheck(t, vacct.N(14, 3000), func(rt *rapid.T) {
 		x := c13Setup(t)
 		defer x.close()
 		n := rapid.IntRange(0, 12).Draw(rt, "n")
@@ -273,7 +273,7 @@ func TestVerif_C13_Listings(t *testing.T) {
 // two writers: any linear extension of the causal order, the same on every replica
 func TestVerif_C13_TwoWriters(t *testing.T) {
 	acct := vacct.Get("C13")
-	vacct.RapidCheck(t, vacct.N(10, 500), func(rt *rapid.T) {
+	vacct.RapidCheck(t, vacct.N(10, 2000), func(rt *rapid.T) {
 		a := vNewReplica(t, "A", nil)
 		b := vNewReplica(t, "B", nil)
 		c := vNewReplica(t, "C", nil)
